@@ -7,6 +7,7 @@
    lower_write_ok, reads_back_of_refines) and the layer theorems, which are stated for any
    refining inner stream; only the glue [stack_opens_src] is new (ArchiveProofs.stack_opens with
    the cursor replaced by the source). *)
+From MLA Require Import Limit.
 From MLA Require Import Base Stream EncLayer EncLayerProofs CompLayer CompLayerProofs RawLayer RawLayerProofs
   CompWriterProofs LayerStack Blocks Writer WriterProofs Reader EncWriter EncWriterProofs Format FormatProofs Ecies
   RoundTripBlocks RoundTripWriter RoundTripReader RoundTripRun RoundTrip Archive ArchiveProofs
@@ -16,6 +17,7 @@ Open Scope N_scope.
 
 Section RoundtripSrc.
   Variables CHUNK TAG CIPHERBUF BLOCK LIMIT FNMAX : N.
+  Local Hint Extern 0 Limit => exact LIMIT : typeclass_instances.
   Variables TS TC TA TE : N.
   Variable H : bytes -> bytes.
   Variable order : footer -> footer.
@@ -174,11 +176,12 @@ Section RoundtripSrc.
     - unfold Archive.archive_write. rewrite Hne. unfold dump_header. fold hp.
       destruct (N.ltb_spec LIMIT (config_size hp)) as [?|_]; [lia|]. cbn [bind].
       rewrite Hrun. rewrite (first_bad_ok rs Hok). cbn [bind].
-      rewrite (lower_write_ok CHUNK TAG CIPHERBUF BLOCK LIMIT H pubk dh kdf wenc wdec wtag ksf tagf dec
+      rewrite (lower_write_ok CHUNK TAG CIPHERBUF BLOCK LIMIT FNMAX H pubk dh kdf wenc wdec wtag ksf tagf dec
                  HCHUNK HTAG HCB HB HB32 HHlen wdec_wenc Hpubk Hwenc Hwtag).
       + reflexivity.
       + intros Ec. destruct (Hc Ec) as (_ & _ & _ & H32 & _). exact H32.
       + intros Ee. destruct (He Ee) as (_ & _ & _ & Hch & _). exact (proj1 Hch).
+      + intros Ec. destruct (Hc Ec) as (_ & _ & Hlm & _). exact Hlm.
     - intros S0 R0 HR0 s0 p0 Hs0.
       assert (Hcfg : (TagCollision pubk dh kdf wenc wtag (wc_eph cfg) (wc_key cfg) (wc_recipients cfg) privs) \/
                      exists k n, load_config hp privs = Ok (wc_encrypt cfg, wc_compress cfg, k, n) /\
@@ -208,7 +211,7 @@ Section RoundtripSrc.
         - destruct (Hkn eq_refl) as [-> ->]. exists R, st0. auto.
         - exists R, st0. auto. }
       destruct Hst as (R' & st1 & HR' & Hos' & HRs').
-      destruct (reads_back_of_refines FNMAX TS TC TA TE H order Htags HHlen Horder ops sf rs Hrun Hok Hutf Hlen64 Hfoot32
+      destruct (reads_back_of_refines LIMIT FNMAX TS TC TA TE H order Htags HHlen Horder ops sf rs Hrun Hok Hutf Hlen64 Hfoot32
                   _ R' HR' st1 0 HRs') as (r & Hop & Hrb).
       exists (mkOP (wc_encrypt cfg) (wc_compress cfg) k n 0), r.
       split; [|split; [reflexivity|split; [reflexivity|exact Hrb]]].
